@@ -23,7 +23,7 @@ def main():
     dst = os.path.join("/verif/seeded", sid)
     os.makedirs(dst, exist_ok=True)
     for f in ("patch.diff", "demo_test.go.txt", "meta.json"):
-        if os.path.exists(os.path.join(src, f)):
+        if os.path.abspath(src) != os.path.abspath(dst) and os.path.exists(os.path.join(src, f)):
             shutil.copy(os.path.join(src, f), os.path.join(dst, f))
     meta = json.load(open(os.path.join(dst, "meta.json")))
     patch = os.path.join(dst, "patch.diff")
